@@ -331,7 +331,7 @@ def common_gojson_frame(a, b):
 def worker_env(prop, variant, d):
     env = {"GODEBUG": "invalidptr=1", "GOTRACEBACK": "all"}
     if base_variant(variant) == "race":
-        env["GORACE"] = "halt_on_error=0 log_path=%s/race history_size=3" % d
+        env["GORACE"] = "halt_on_error=0 exitcode=0 log_path=%s/race history_size=3" % d
     if base_variant(variant) == "asan":
         env["ASAN_OPTIONS"] = "detect_leaks=0:abort_on_error=0:halt_on_error=1"
     env.update(PROPCFG.get(prop, {}).get("env", {}))
@@ -405,7 +405,7 @@ def race_signature(block):
         fn = ""
         for l in part.split("\n"):
             l = l.strip()
-            m = re.match(r"(github\.com/goccy/go-json[^\s(]*)\(", l)
+            m = re.match(r"(github\.com/goccy/go-json\S*)\(\)$", l)
             if m:
                 fn = m.group(1).replace("github.com/goccy/go-json", "")
                 break
